@@ -82,6 +82,7 @@ def replay(spec):
         PIDInterface(names, M, warm).check_prior({n: 0.75 for n in names})
     except Exception:
         pass
+    prior = dict(reversed(list(prior.items())))      # as in the harness: the dictionary's order is not the vector's
     pid = PIDInterface(names, M, prior)
     try:
         got = pid.check_prior(theta)
